@@ -1,4 +1,5 @@
 import RactorModel.Lemmas.Frames
+import RactorModel.Lemmas.FramesIo
 import RactorModel.Extracted
 
 /-!
@@ -230,6 +231,39 @@ theorem buffer_grows_only_with_received_bytes (len : Nat) (chunks : List Bytes) 
     traceOk 8 8 0 (readN 8 8 chunks).2.2 = true :=
   ⟨readN_traceOk _ _ _, readN_traceOk _ _ _⟩
 
+/-- (a transport that FAILS) When the transport, after delivering the pieces `chunks`, answers the
+next read with an I/O error instead of EOF (every `?` of `read_u64` / `read_n_bytes`), the reader's
+life is still: decoded frames, then exactly one error, then nothing; it does not depend on the
+fragmentation; the frames decoded before the failure are exactly those of the same bytes followed
+by EOF; and the failure is never reported as a clean EOF (stop reason `frame_read_error`, not
+`channel_closed`). -/
+theorem io_error_stops_reader {Msg : Type} (dec : Bytes → Option Msg) (max : Nat) (chunks : List Bytes)
+    (endIo : Bool) :
+    stopsAtFirstError (readFramesIo dec max chunks endIo).1 = true ∧
+    (readFramesIo dec max chunks endIo).1 = (readFramesIo dec max [chunks.flatten] endIo).1 ∧
+    (∀ m, FrameRes.ok m ∈ (readFramesIo dec max chunks endIo).1 ↔ FrameRes.ok m ∈ (readFrames dec max chunks).1) ∧
+    (endIo = true → FrameRes.err FrameErr.eof ∉ (readFramesIo dec max chunks endIo).1) ∧
+    (∀ e, FrameRes.err e ∈ (readFramesIo dec max chunks true).1 → stopReason e = "frame_read_error") := by
+  refine ⟨?_, ?_, ?_, ?_, ?_⟩
+  · simp only [readFramesIo, stops_map_ioEnd]
+    exact readFrames_stops dec max chunks
+  · simp only [readFramesIo]
+    rw [readFrames_fst_eq dec max chunks]
+  · intro m
+    simp only [readFramesIo]
+    exact ok_mem_map_ioEnd endIo _ m
+  · intro h
+    subst h
+    exact no_eof_after_ioEnd _
+  · intro e he
+    have := no_eof_after_ioEnd (readFrames dec max chunks).1
+    cases e with
+    | eof => exact absurd he this
+    | tooLarge => rfl
+    | unalloc => rfl
+    | undecodable => rfl
+    | io => rfl
+
 /-- (round trip) Frames written by `encode_network_message`, each within the limit, are read
 back in order whatever the fragmentation, followed by EOF; every byte is consumed. -/
 theorem frames_roundtrip {Msg : Type} (dec : Bytes → Option Msg) (max : Nat) (ps : List Bytes)
@@ -375,6 +409,8 @@ example :
 example : framesObs (fun p => some p) 4 [[0,0,0,0,0,0,0,5, 1,2,3,4,5]] = ([.err .tooLarge], 8) := by decide
 
 example : metaOk ⟨1700000000000000000, some 1500, [1, 2]⟩ = true := by decide
+
+#print axioms C19.io_error_stops_reader
 
 end C19
 
